@@ -33,12 +33,14 @@ const char* const kFaultNames[] = { "preemption", "child_runs_first_at_create", 
 enum ProbeId { P_singleton_run, P_managed_run, P_two_threads_inside_instance, P_lock_waited,
                P_query_while_running, P_query_before_start, P_query_after_finish, P_child_ran_before_ctor_end,
                P_join_explicit, P_join_by_destructor, P_observer_thread, P_reset_between_rounds,
-               P_policy_random, P_policy_pct, P_policy_rr, P_function_over_before_ctor_end, P_two_singleton_types, P_persistent_threads, P_constructor_throws_once };
+               P_policy_random, P_policy_pct, P_policy_rr, P_function_over_before_ctor_end, P_two_singleton_types, P_persistent_threads, P_constructor_throws_once,
+               P_mixed_call_forms, P_results_read_after_inactive };
 const char* const kProbeNames[] = { "singleton_run", "managed_run", "two_threads_inside_instance", "lock_waited",
                "query_while_function_running", "query_before_start", "query_after_finish",
                "child_ran_before_constructor_finished", "join_explicit", "join_by_destructor", "observer_thread",
                "reset_between_rounds", "policy_random", "policy_pct", "policy_rr",
-               "function_finished_before_constructor_returned", "two_singleton_types_in_one_run", "threads_living_across_reset", "first_construction_attempt_throws" };
+               "function_finished_before_constructor_returned", "two_singleton_types_in_one_run", "threads_living_across_reset", "first_construction_attempt_throws",
+               "first_access_through_different_call_forms", "function_results_read_after_inactive_report" };
 
 // ------------------------------------------------------------ singleton
 
@@ -84,7 +86,25 @@ protected:
       for (int k = 0; k < 6; ++k)
          words[ k] = payloadWord( a, k);
    }
+   Probe( int a, int): Probe( a) {}
 };
+
+/// instance() is a variadic template: the same singleton can be reached
+/// through several instantiations (lvalue, rvalue, const reference, another
+/// constructor, another argument type); all of them are "the first access"
+constexpr int  kCallForms = 5;
+
+Probe& accessProbe( int form, int ctor_arg)
+{
+   switch (form)
+   {
+   case 1:  return Probe::instance( int( ctor_arg));
+   case 2:  return Probe::instance( static_cast< const int&>( ctor_arg));
+   case 3:  return Probe::instance( ctor_arg, 0);
+   case 4:  return Probe::instance( static_cast< short>( ctor_arg));
+   default: return Probe::instance( ctor_arg);
+   }
+}
 
 /// a second singleton type with a two-argument constructor: the static
 /// members are per type, the two must not interfere
@@ -115,7 +135,7 @@ struct Slot
    bool         text_ok = true;
 };
 
-void singletonWorkerB( int ctor_arg, Slot* slot, std::atomic< int>* go)
+void singletonWorkerB( int ctor_arg, Slot* slot, std::atomic< int>* go, int)
 {
    if (go != nullptr)
       while (go->load() == 0)
@@ -137,13 +157,13 @@ struct RoundCtl
 
 /// a thread that lives through all rounds: its first access of every round
 /// comes after another thread's reset()
-void persistentWorker( int tid, int rounds, std::vector< std::vector< Slot>>* slots, RoundCtl* ctl)
+void persistentWorker( int tid, int rounds, std::vector< std::vector< Slot>>* slots, RoundCtl* ctl, int form, int form_step)
 {
    for (int r = 0; r < rounds; ++r)
    {
       while (ctl->round_go.load() < r + 1)
          sim::schedYield();
-      Probe&  p = Probe::instance( 1000 * (r + 1) + tid);
+      Probe&  p = accessProbe( (form + r * form_step) % kCallForms, 1000 * (r + 1) + tid);
       Slot&   slot = (*slots)[ static_cast< size_t>( r)][ static_cast< size_t>( tid)];
       slot.addr = &p;
       slot.arg = p.arg;
@@ -154,7 +174,7 @@ void persistentWorker( int tid, int rounds, std::vector< std::vector< Slot>>* sl
    }
 }
 
-void singletonWorker( int ctor_arg, Slot* slot, std::atomic< int>* go)
+void singletonWorker( int ctor_arg, Slot* slot, std::atomic< int>* go, int form)
 {
    if (go != nullptr)
       while (go->load() == 0)
@@ -169,7 +189,7 @@ void singletonWorker( int ctor_arg, Slot* slot, std::atomic< int>* go)
    {
       try
       {
-         pp = &Probe::instance( ctor_arg);
+         pp = &accessProbe( form, ctor_arg);
       } catch (const std::runtime_error&)
       {
          // a failed construction must leave the singleton "not created":
@@ -196,20 +216,41 @@ struct ManagedShared
    std::atomic< int>                             finished{ 0 };
    std::atomic< celma::common::ManagedThread*>   published{ nullptr };
    std::atomic< int>                             stop_observers{ 0 };
+   /// what the thread function produces: plain memory on the heap, written by
+   /// the function just before it returns. Whoever has seen the function
+   /// started and then gets "not active" reads it without joining first.
+   uint64_t*                                     results = nullptr;
+   int                                           results_key = 0;
 };
+constexpr int  kResultWords = 4;
 
 struct QueryLog
 {
    int  m1_violations = 0;
    int  while_running = 0, before_start = 0, after_finish = 0;
    int  first_bad_query = -1;
+   int  results_read = 0, results_wrong = 0;
 };
 
 void query( ManagedShared& sh, celma::common::ManagedThread& mt, QueryLog& ql, int qidx)
 {
    const int   s = sh.started.load();
    const bool  a = mt.isActive();
+   // "not active" after the start was seen = the function has returned: its
+   // results are read here, BEFORE the harness flag `finished` is loaded (that
+   // load would order the two threads and must not stand in for isActive())
+   uint64_t    seen[ kResultWords] = { 0, 0, 0, 0 };
+   const bool  read_results = (s == 1 && !a && sh.results != nullptr);
+   if (read_results)
+      for (int k = 0; k < kResultWords; ++k)
+         seen[ k] = sh.results[ k];
    const int   f = sh.finished.load();
+   if (read_results && f == 1)
+   {
+      ++ql.results_read;
+      for (int k = 0; k < kResultWords; ++k)
+         if (seen[ k] != payloadWord( sh.results_key, k)) ++ql.results_wrong;
+   }
    if (s == 1 && f == 0)
    {
       ++ql.while_running;
@@ -229,6 +270,8 @@ void managedBody( ManagedShared* sh, bool latch)
    sh->started.store( 1);
    while (latch && sh->release.load() == 0)
       sim::schedYield();
+   for (int k = 0; k < kResultWords; ++k)
+      sh->results[ k] = payloadWord( sh->results_key, k);
    sh->finished.store( 1);
 }
 
@@ -239,6 +282,8 @@ void managedBodyArg( ManagedShared* sh, int spin_extra, bool latch)
       sim::schedYield();
    while (latch && sh->release.load() == 0)
       sim::schedYield();
+   for (int k = 0; k < kResultWords; ++k)
+      sh->results[ k] = payloadWord( sh->results_key, k);
    sh->finished.store( 1);
 }
 
@@ -312,6 +357,14 @@ public:
          plan[ "two_types"] = cfg.chance( 1, 3);
          plan[ "persistent"] = cfg.chance( 1, 4);
          plan[ "ctor_throws"] = cfg.chance( 1, 4);
+         if (cfg.chance( 1, 2))
+         {
+            Json  fl = Json::array();
+            for (long long t = 0; t < plan.geti( "threads"); ++t)
+               fl.push( cfg.range( 0, kCallForms - 1));
+            plan[ "forms"] = fl;
+            plan[ "form_step"] = cfg.range( 0, 3);
+         }
          plan[ "sched"] = sim::genSchedule( sc, 400 * static_cast< uint64_t>( plan.geti( "threads")));
       } else
       {
@@ -377,7 +430,7 @@ public:
          {
             auto const&  a = ri.access[ k];
             os << (k ? " vs " : " ") << (a.atomic ? "atomic " : "") << (a.write ? "write" : "read") << "(" << a.size << ") in "
-               << sim::symbolizePc( a.pc[ 0]);
+               << sim::symbolizeAccess( a.pc, 4);
          }
          res.fail( "RACE", "data-race", os.str());
       }
@@ -428,6 +481,19 @@ private:
       g_fail_next.store( 0);
       g_ctor_failures_seen.store( 0);
       int  max_inside_all = 0;
+      // call form of every thread: [ 2, 0, 1] = thread 0 uses form 2, ...; missing = 0
+      std::vector< int>  forms( static_cast< size_t>( k), 0);
+      bool               mixed = false;
+      if (plan.get( "forms").isArr())
+      {
+         auto const&  fl = plan.get( "forms");
+         for (size_t t = 0; t < forms.size() && t < fl.size(); ++t)
+            forms[ t] = static_cast< int>( (((fl.at( t).isInt() ? fl.at( t).i() : 0) % kCallForms) + kCallForms) % kCallForms);
+      }
+      for (int f : forms)
+         if (f != forms[ 0]) mixed = true;
+      const int  form_step = static_cast< int>( plan.geti( "form_step", 0) & 3);
+      if (mixed) st.probe( P_mixed_call_forms);
       sim::schedBegin( sh.cfg);
       if (persistent)
       {
@@ -437,7 +503,8 @@ private:
          RoundCtl                          ctl;
          std::vector< std::thread>         threads;
          for (long long t = 0; t < k; ++t)
-            threads.emplace_back( persistentWorker, static_cast< int>( t), static_cast< int>( rounds), &slots, &ctl);
+            threads.emplace_back( persistentWorker, static_cast< int>( t), static_cast< int>( rounds), &slots, &ctl,
+                                  forms[ static_cast< size_t>( t)], form_step);
          for (long long round = 0; round < rounds; ++round)
          {
             if (round > 0)
@@ -491,7 +558,8 @@ private:
          for (long long t = 0; t < k; ++t)
             threads.emplace_back( (two_types && (t % 2) == 1) ? singletonWorkerB : singletonWorker,
                                   static_cast< int>( 1000 * (round + 1) + t),
-                                  &slots[ static_cast< size_t>( t)], barrier ? &go : nullptr);
+                                  &slots[ static_cast< size_t>( t)], barrier ? &go : nullptr,
+                                  forms[ static_cast< size_t>( t)]);
          go.store( 1);
          for (auto & t : threads)
             t.join();
@@ -559,6 +627,9 @@ private:
       for (long long round = 0; round < rounds && res.ok(); ++round)
       {
          ManagedShared            shd;
+         std::unique_ptr< uint64_t[]>  result_words( new uint64_t[ kResultWords]());
+         shd.results = result_words.get();
+         shd.results_key = 4242 + static_cast< int>( round);
          std::vector< QueryLog>   qlogs( static_cast< size_t>( nobs) + 1);
          std::vector< std::thread>  observers;
          for (long long o = 0; o < nobs; ++o)
@@ -612,6 +683,11 @@ private:
             running += qlogs[ q].while_running;
             before += qlogs[ q].before_start;
             after += qlogs[ q].after_finish;
+            if (qlogs[ q].results_read > 0) st.probe( P_results_read_after_inactive);
+            if (qlogs[ q].results_wrong > 0)
+               res.fail( "VIOLATION", "M4-results-visible", std::string( q == 0 ? "creating thread" : "observer thread")
+                  + ": isActive() returned false after the function had started, but the values the function wrote before"
+                    " it returned were not what was read");
             if (qlogs[ q].m1_violations > 0)
                res.fail( "VIOLATION", "M1-active-while-running", std::string( q == 0 ? "creating thread" : "observer thread")
                   + ": isActive() returned false in query " + std::to_string( qlogs[ q].first_bad_query)
